@@ -157,6 +157,21 @@ def showList (es : List Env) : String := " ".intercalate (es.map fun e => dshort
 def optHex (s : String) : Option (Option Bytes) :=
   if s == "-" then some Option.none else (bytesOfHex s).map some
 
+/-- a permutation of a digest's bytes (what the harness declares instead of the true digest); `none` inside when the permutation
+leaves the digest unchanged -/
+def permDigest (d : Digest) (kind : String) : Option (Option Digest) :=
+  let bs := d.bytes
+  let swap (i j : Nat) (l : Bytes) : Bytes := l.zipIdx.map fun (b, k) => if k == i then l.getD j b else if k == j then l.getD i b else b
+  let p : Option Bytes :=
+    if kind == "swap" then some (swap 0 1 bs)
+    else if kind == "rot" then some (bs.drop 1 ++ bs.take 1)
+    else if kind == "rev" then some bs.reverse
+    else if kind == "swapfar" then some (swap 3 29 bs)
+    else Option.none
+  p.map fun q =>
+    let q := if q == bs then swap 0 31 q else q
+    if q == bs then Option.none else Digest.ofBytes? q
+
 def cborOfHex (hx : String) : Option Cbor := (bytesOfHex hx).bind Cbor.dec?
 
 /-- comma-separated hex items (empty items skipped) -/
@@ -380,6 +395,22 @@ def evalAssign (facts : List String) (r : Regs) (args : List String) : Option Va
     pure (match m.optDigest with
       | some d => .env (.encrypted m d)
       | Option.none => .err "MissingDigest")
+  | ["miscompress_perm", e, kind] => do
+    let e ← r.env e
+    let d ← permDigest e.digest kind
+    pure (match d with
+      | some d => .env (.compressed (compressedOf ZZ (encode e)) d)
+      | Option.none => .err "degenerate-digest")
+  | ["misdeclare_perm", e, kind, key, n] => do
+    let e ← r.env e; let key ← bytesOfHex key; let n ← bytesOfHex n
+    let d ← permDigest e.digest kind
+    pure (match d with
+      | some d =>
+        let m := encryptWithDigest AE key n (encode e) d
+        (match m.optDigest with
+          | some d' => .env (.encrypted m d')
+          | Option.none => .err "MissingDigest")
+      | Option.none => .err "degenerate-digest")
   | ["miscompress_near", e, k] => do
     let e ← r.env e; let k ← k.toNat?
     let bs := e.digest.bytes
